@@ -153,6 +153,35 @@ Section Cache.
     | q :: r => residue s q :: residues (fst (step s q)) r
     end.
 
+  (* Where a call appends a line to the decision log, and whether that line may carry the full command
+     (C15 in a process that decides more than once): log_decision writes to the configured destination
+     unless logging is off, was switched off by an earlier failure, or the write fails. *)
+  Definition writes (s : state) (fault : bool) : option (str * bool) :=
+    match logcfg s with
+    | None => None
+    | Some l => if logdis s then None else if fault then None else Some l
+    end.
+  Definition effect (s : state) (q : query) : option (str * bool) :=
+    match q with
+    | QMain det x log cf df =>
+        let s1 := match explicit with Some _ => s | None => set_mode det s end in
+        writes (fst (analyze x (configure log cf s1))) df
+    | QCheck x => writes (fst (analyze x s)) false
+    | QLogDecision fl => writes s fl
+    | _ => None
+    end.
+  Fixpoint effects (s : state) (h : list query) : list (option (str * bool)) :=
+    match h with
+    | [] => []
+    | q :: r => effect s q :: effects (fst (step s q)) r
+    end.
+  (* what the same main() run appends in a process that has done nothing before: read off its own arguments *)
+  Definition main_effect_spec (log : option (str * bool)) (cfg_fault dec_fault : bool) : option (str * bool) :=
+    match log with
+    | None => None
+    | Some l => if cfg_fault then None else if dec_fault then None else Some l
+    end.
+
   (* the hit/miss sequence of a trace of _load_handler calls (what cache_info() counts) *)
   Fixpoint trace (c : cache) (ms : list str) : list bool * cache :=
     match ms with
